@@ -698,12 +698,21 @@ class ExprMixin(Core):
         f = self.uf("prog_at", z3.IntSort(), z3.IntSort(), z3.IntSort(), z3.IntSort())
         return f(lo, stp, j)
 
-    def progression_seq(self, base_seq, lo, stp, cnt):
+    def prog_bounds(self, lo, hi, stp, j):
+        """arithmetic fact about progressions (A5, trusted): the j-th term of range(lo, hi, stp),
+        0 <= j < len(range), lies in [lo, hi) for stp > 0 and in (hi, lo] for stp < 0"""
+        at = self.prog_at(lo, stp, j)
+        return z3.And(z3.Implies(stp > 0, z3.And(lo <= at, at < hi)), z3.Implies(stp < 0, z3.And(hi < at, at <= lo)))
+
+    def progression_seq(self, base_seq, lo, stp, cnt, hi=None):
         """fresh Seq V r with len cnt and r[j] == base_seq[lo + j*stp] (quantified, pattern r[j])"""
         r = z3.Const(fresh_name("slice"), self.U.SeqV)
         j = z3.Int(fresh_name("sj"))
         self.axioms.append(z3.Length(r) == cnt)
-        self.axioms.append(self.forall([j], z3.Implies(z3.And(0 <= j, j < cnt), r[j] == base_seq[self.prog_at(lo, stp, j)]), [r[j]]))
+        body = r[j] == base_seq[self.prog_at(lo, stp, j)]
+        if hi is not None:
+            body = z3.And(body, self.prog_bounds(lo, hi, stp, j))
+        self.axioms.append(self.forall([j], z3.Implies(z3.And(0 <= j, j < cnt), body), [r[j]]))
         return r
 
     def seq_slice_obj(self, seq, kind, sl, st, txt=""):
@@ -715,7 +724,7 @@ class ExprMixin(Core):
         def okk(a):
             lo, hi, stp = self.slice_indices(U.acc("sstart", s), U.acc("sstop", s), stepv, z3.Length(seq))
             cnt = self.range_len(lo, hi, stp)
-            return self.ok(T("list" if kind != "tuple" else "tuple", self.progression_seq(seq, lo, stp, cnt)), a)
+            return self.ok(T("list" if kind != "tuple" else "tuple", self.progression_seq(seq, lo, stp, cnt, hi)), a)
 
         if st.mode == "spec":
             return okk(st)
